@@ -131,6 +131,19 @@ package meta
 //@   assigns nothing
 
 // ================================================================ catalogue lookups (used by C13/C16 contracts)
+//@ prop C14
+// Stores judge shards they have not loaded by the span and duration the catalogue reports: every reported
+// entry carries the shard group's own [StartTime, EndTime) and the policy's current duration (a shard is
+// expired only when EndTime + Duration has passed - reporting StartTime as the end expires it a whole group early).
+//@ func (*RetentionPolicyInfo).TierDuration
+//@   assigns nothing
+//@ func (*Data).DurationInfos$1$1$1$1
+//@   call append
+//@     requires [one] len(arg1) == 1
+//@     requires [reported_span] arg1[0].Ident.StartTime == sg.StartTime && arg1[0].Ident.EndTime == sg.EndTime
+//@     requires [reported_ids] arg1[0].Ident.ShardID == sh.ID && arg1[0].Ident.ShardGroupID == sg.ID
+//@     requires [reported_duration] arg1[0].DurationInfo.Duration == rp.Duration
+
 //@ prop C13 C16
 
 //@ func (*Data).Database
